@@ -16,7 +16,7 @@ FAIL = {
     'C10': ('header', 'rows', 'truevars', 'no-result', 'accept', 'panic'),
     'C11': ('header', 'rows', 'order', 'roundtrip', 'accept', 'byname', 'panic', 'no-result', 'symbol', 'sem', 'shape'),
     'C12': ('panic',),
-    'C19': ('member', 'panic'),
+    'C19': ('member', 'panic', 'sharing'),
     'C15': ('models', 'illformed', 'panic'),
     'C16': ('models', 'illformed', 'panic'),
     'C17': ('hints', 'illformed', 'panic'),
@@ -75,7 +75,8 @@ CLI_RULE = {
     'shadow': 'the 350 systematic shadowing formulas of S-text/evalshadow through the binary (header = free variables in order, rows) x filters x channels',
     'coll': 'identifiers that collide under FxHash (see S-text/evalcoll) as formula variables and in ordering files, through the binary, half with the -r / -o round trip',
     'models': '-m (with and without -f) on 130 counting formulas (five comparisons x list-against-list with operands shared at different multiplicities, names that occur in the right-hand list only, empty lists, compound operands; constants 0..3), a third of the shadowing formulas and seeded random formulas: the printed rows must be those of model(d) for the diagram d the model computes, or at least a genuine cube of it',
-    'names': 'variable names of 20, 23, 24, 25, 26, 32, 64 and 200 characters in 3 formulas x 4 ordering files that do not list them last (and none), each with the -r / -o round trip',
+    'texts': 'comment / quoting / prime characters at the edges of the text (a backslash before the closing quote of a comment, a leading or trailing prime, a trailing comment, stray quotes, leading / trailing blanks, tabs, a final newline) through all three input channels',
+    'names': 'names with combining marks, zero-width joiners, connector punctuation, superscripts and non-ASCII digits in the formula and in the ordering file; variable names of 20, 23, 24, 25, 26, 32, 64 and 200 characters in 3 formulas x 4 ordering files that do not list them last (and none), each with the -r / -o round trip',
     'env': 'hidden inputs: every environment variable the binary announces in --help ([env: NAME=]) or mentions in its sources (env = "NAME", env::var("NAME")) is exported with the values True/False/Any/t/f/0/1 around 12 grid formulas x 6 (-f, -c) combinations; the output must be what the model prints for the command line alone (no such variable exists on the unchanged tree: 0 cases)',
     'random': 'seeded random formulas (monotone-by-construction fixed points, <=6 names) x random option sets (-f, -c, -m, -b, channel) x random ordering files (unused names, duplicates, separators), half of those with round trip',
     'robustbin': 'the binary on seeded arbitrary bytes as formula and as ordering file (raw bytes incl. invalid UTF-8, token soups with huge / non-ASCII numerals, NUL, stray quotes and braces, mutated formulas, nesting up to 200, long chains) x option sets; exit class and absence of a panic message',
@@ -116,7 +117,7 @@ PROPS = {
     'C01': dict(suites=[text(['tok', 'parse', 'eval', 'evalfp', 'evalwide', 'evalq', 'evalshadow', 'evallong', 'sym', 'evalid', 'evalcoll'])]),
     'C08': dict(suites=[text(['tok', 'parse', 'evallong', 'evalcoll'])]),
     'C09': dict(suites=[text(['eval', 'evalwide', 'evalshadow', 'sym', 'evalcoll'])]),
-    'C10': dict(suites=[cli(['grid', 'order', 'size', 'shadow', 'names', 'coll', 'env', 'random'])]),
+    'C10': dict(suites=[cli(['grid', 'order', 'size', 'shadow', 'names', 'coll', 'env', 'texts', 'random'])]),
     'C11': dict(suites=[cli(['order', 'names', 'coll', 'random']), text(['evalord', 'evalid', 'sym'])]),
     'C12': dict(suites=[cli(['robustlib', 'robustbin', 'grid', 'size']), text(['evallong'], exhaustive=False), dbg(cli(['robustlib'])), dbg(text(['evallong', 'evalc']))]),
     'C19': dict(suites=[dict(suite='set', parts=[], profile='release', exhaustive=True,
@@ -125,7 +126,7 @@ PROPS = {
                              rule='hist: all 1884 operation sequences of length <=3 over a 12-operation alphabet acting on the two latest handles (var, not, and, or, xor, exists, model, retain, mk_choice, clean, counting) in one environment, plus seeded random histories (100 x 100 operations; thorough 2000 x 300) over all public operations incl. fp, with operands drawn from recent and from old handles; after EVERY step: the step re-run in a fresh environment gives the identical result, every earlier handle re-serialises to its recorded text, every node reachable from every handle is pointer-identical to the unique table entry for its structure, both leaves present, every key equals its value. heap: random sequences of direct mk_choice / mk_const calls on earlier results: pointer-equality pattern and table size against the Heap model. histf: 2-6 formula texts evaluated one after the other in ONE environment through ParsedFormula::new_with_env, the same structure recurring under four spellings of the same ids: each result equals the fresh-environment evaluation and the model value, old results keep their structure, equal results are one pointer, table invariants after every step. All table sweeps also require one entry per (id, child addresses)'),
                         bdd(['mixed'], exhaustive=False), text(['sym'], exhaustive=False)]),
     'C14': dict(lint='c14', suites=[dict(suite='dot', parts=[], profile='release', exhaustive=True,
-                             rule='dotbdd: BDDGraph DOT text of all 256 functions over two variable triples x filters Any/True/False and of a stride of the 65536 four-variable functions (thorough: all), parsed back: every node id is replaced by the structure it roots through its T/F edges (a missing edge leads to the leaf the filter hides), node set and edge set compared with dot_nodes / dot_edges of the model, plus flags for an id declared twice, two ids rooting the same structure, an undeclared edge end; dotnamed: the same for evaluated random formulas over names needing escaping (quote, non-ASCII); dottree: SymbolicParseTree DOT text of 18 hand-picked formulas (every node kind, repeated sub-terms), 42 size cases (binder lists and counting lists of 6, 7, 8, 12, 33, 70 names, names of 20-41 characters) and random formulas, read back as terms from labels and ordered edge labels: node set, edge set and the term rooted at the unique parent-less node compared with the parsed tree'),
+                             rule='dotbdd: BDDGraph DOT text of all 256 functions over two variable triples x filters Any/True/False and of a stride of the 65536 four-variable functions (thorough: all), parsed back: every node id is replaced by the structure it roots through its T/F edges (a missing edge leads to the leaf the filter hides), node set and edge set compared with dot_nodes / dot_edges of the model, plus flags for an id declared twice, two ids rooting the same structure, an undeclared edge end; dotnamed: the same for evaluated random formulas over names needing escaping (quote, non-ASCII), and for 336 fixed-point formulas whose intermediate iterates survive inside the answer and are re-used afterwards, under all six variable orders; dottree: SymbolicParseTree DOT text of 18 hand-picked formulas (every node kind, repeated sub-terms), 42 size cases (binder lists and counting lists of 6, 7, 8, 12, 33, 70 names, names of 20-41 characters) and random formulas, read back as terms from labels and ordered edge labels: node set, edge set and the term rooted at the unique parent-less node compared with the parsed tree'),
                         dict(suite='dot', parts=['files'], profile='release', bins='debug', exhaustive=False,
                              rule='files: the rsbdd binary with --dot FILE --parsetree FILE (and --filter) on the 40 grid formulas x 3 filters and seeded random formulas over names needing escaping; both files read back and compared like dotnamed / dottree')]),
     'C15': dict(suites=[gen(['queens'])]),
@@ -216,7 +217,7 @@ _t('C19', 'Theorems: every operation of the (repaired) BDDSet state machine on t
    'Trusted: Coq kernel; extraction + ocamlopt; glue. RefCell aliasing (a run-time panic) cannot be exhibited by the pure model; it is covered by the self-aliasing transitions of the BFS. categorize (bit is 0) is modelled as negb (testbit e c).')
 
 _t('C13', 'Theorems about the unique-table ADT (cells + association table): for EVERY finite sequence of mk_choice / mk_const calls whose pointer arguments were handed out earlier, the table invariant holds (keys are the structures of their values, keys pairwise distinct, children of table nodes are table nodes, both leaves present, acyclic), every old pointer keeps its structure (C13_histories), pointer equality coincides with structural equality on handed-out pointers (C13_sharing), and mk_choice returns a pointer whose structure is mk of the operand structures (C13_refine) - so results are functions of operand structures only, which is what the tree model of C02-C07 assumes. '
-          'The operations as clients of the ADT (Env/HeapOps.v): not, and, or and exists_impl written over addresses as src/bdd.rs writes them over Rc pointers (read the operands\' cells, recurse, finish with mk_choice / mk_const) keep the invariant, leave every earlier pointer valid and unchanged and return a pointer whose structure is the tree model\'s result (C13_not_client, C13_and_client, C13_or_client; generic in the leaf cases); the same for every composition of them, operands evaluated left to right (C13_connectives_client over a small program language: implies, ite, eq, xor, nor, nand, var, const, exists / all over lists, the counting cascade, C13_derived_programs); with fuel above the operand heights the recursion answers, i.e. the `unsupported match` arm is unreachable (C13_and_total). Partial: that the Rust functions ARE these address-level programs (and model / retain / clean / fp likewise) is checked, not proved: a source lint (nodes touched only in size/mk_choice/mk_const/find/new; Choice allocated only in mk_choice/From) plus the dynamic sweep of suite S-hist after every step of every history (fresh-environment re-run identical, all old handles unchanged, Rc::ptr_eq of every reachable node with its table entry).',
+          'The operations as clients of the ADT (Env/HeapOps.v): not, and, or and exists_impl written over addresses as src/bdd.rs writes them over Rc pointers (read the operands\' cells, recurse, finish with mk_choice / mk_const) keep the invariant, leave every earlier pointer valid and unchanged and return a pointer whose structure is the tree model\'s result (C13_not_client, C13_and_client, C13_or_client; generic in the leaf cases); the same for every composition of them, operands evaluated left to right (C13_connectives_client over a small program language: implies, ite, eq, xor, nor, nand, var, const, exists / all over lists, the counting cascade, C13_derived_programs); with fuel above the operand heights the recursion answers, i.e. the `unsupported match` arm is unreachable (C13_and_total). likewise model, retain_choice_bottom_up, clean and fp with any client transformer (C13_model_client, C13_retain_client, C13_clean_client, C13_fp_client: fp stops exactly where the tree-level iteration stops, `snew == s` being pointer equality by sharing). Partial: that the Rust functions ARE these address-level programs is checked, not proved: a source lint (nodes touched only in size/mk_choice/mk_const/find/new; Choice allocated only in mk_choice/From) plus the dynamic sweep of suite S-hist after every step of every history (fresh-environment re-run identical, all old handles unchanged, Rc::ptr_eq of every reachable node with its table entry).',
    'Trusted: Coq kernel; extraction + ocamlopt; glue. The Heap model abstracts FxHashMap<BDD, Rc<BDD>> as an association list keyed by structure and Rc pointers as addresses; hashing itself (derive(Hash), FxHasher) is not modelled. Operations-are-ADT-clients is established by lint and run-time check only.')
 
 _t('C14', 'Theorems about the export functions as lists of (structure, label, structure): the node list has no repetition under every filter (C14_nodes_once); with filter Any every edge joins declared nodes (C14_edges_declared) and following from the root the edge labelled with each tested variable\'s value reaches the leaf beval (C14_walk: the graph denotes the same function); '
@@ -237,5 +238,7 @@ _t('C18', 'Theorems: for EVERY permutation the shuffle may return, a feasible re
           'The randomness itself cannot be exhibited by a model: every real answer is judged by the extracted valid_output. Correspondence: (V,E) grid x flags x repeated runs; convert and colours on all small edge lists.', NOTE_GEN)
 
 # the state lint runs with every property whose model is the state-free tree model of the library
+# C13 through the set API as well: every BDDSet history ends with the table sweep of S-hist
+PROPS['C13']['suites'].append(dict(PROPS['C19']['suites'][0], exhaustive=False))
 for _p in ('C01', 'C02', 'C03', 'C04', 'C05', 'C06', 'C07', 'C09', 'C13', 'C19', 'C20'):
     PROPS[_p]['state_lint'] = True
